@@ -155,8 +155,13 @@ func (h *HookSite) Mark() int {
 func (h *HookSite) Since(mark int) []*HookCall {
 	h.mu.Lock()
 	defer h.mu.Unlock()
-	out := make([]*HookCall, len(h.calls)-mark)
-	copy(out, h.calls[mark:])
+	// snapshots, not the live records: serve() completes a record (EndSeq, Status, ...) under the
+	// lock after the call was answered, and observers read them while calls are in flight
+	out := make([]*HookCall, 0, len(h.calls)-mark)
+	for _, c := range h.calls[mark:] {
+		cc := *c
+		out = append(out, &cc)
+	}
 	return out
 }
 
